@@ -5,4 +5,7 @@ import c09_cal
 
 def run(ctx):
     ctx.level = "proof"
+    ctx.rule = ("one evaluation = one input file (valid, tree mutation, text mutation, truncation, random bytes) through "
+                "vnacal_load (+ save/reload on success) or one YAML text through both import functions; distinct non-trivial = "
+                "(input family, mutation kind, outcome / shape of the loaded calibrations)")
     c09_cal.run(ctx, standalone=True)
